@@ -16,7 +16,7 @@ from ..constfold import Folder
 from ..dataflow import Flow, chain, call_name
 from ..absint import Interp
 from ..poly import Poly, le, lt, eq
-from ..terms import Terms, mk_cmp, is_none, plain, split_cond, \
+from ..terms import strip_new, Terms, mk_cmp, is_none, plain, split_cond, \
     alternatives, match, V, ANY, show, lookup, subterms, stores, as_lambda, \
     one_level, reify, \
     method_calls
@@ -1656,6 +1656,38 @@ def r5_contract(program, rep):
                    "default factory: an integer target is lost (None = no "
                    "limit) and a table that is too large is returned "
                    "silently" if (okt is False and bypass) else None)
+    if okt:
+        # what is filed for the chip is the table the minimiser returned, as
+        # it is: an entry with an empty route set ("drop here") is an entry
+        # like any other - without it the packet is default-routed onwards
+        RES = S.term(cs[0], S.cfg.node_containing(cs[0]))
+        filed = [x for x in stores(S) if plain(x[3]) == plain(CHIP)]
+        if not filed:
+            raise AnalysisError("minimise_tables: where the minimised table "
+                                "of a chip is stored was not found")
+        def same_table(v):
+            if v == RES:
+                return True
+            v = strip_new(v)
+            if v[0] == "call" and v[1] == ("global", "list") and \
+                    v[2] == (RES,) and not v[3]:
+                return True
+            return v[0] == "listcomp" and v[1] == ("elem", RES) and \
+                v[2] == ((RES, ()),)
+        oks = all(same_table(x[4]) for x in filed)
+        if not oks and not all(
+                any(st_ == RES for st_ in subterms(x[4])) for x in filed):
+            raise AnalysisError("minimise_tables: the table stored for a "
+                                "chip is not derived from minimise_table's "
+                                "result in a form these rules read")
+        rep.check(oks, "C04-R5", qual(mts), "the table stored for a chip is "
+                  "the minimiser's result, unchanged",
+                  construct="minimise_tables stores result", node=mts,
+                  fail="the table stored for a chip is not the minimiser's "
+                       "result itself but %s: entries are dropped or "
+                       "changed after minimisation (an entry with an empty "
+                       "route set absorbs packets; without it they are "
+                       "default-routed on)" % show(filed[0][4])[:80])
     om = program.get(OC + ":minimise")
     O = Terms(om)
     okc = False
